@@ -124,6 +124,29 @@ def fuse_comprehensions(t: "T") -> "T":
         return t
     args = [fuse_comprehensions(a) for a in t.args]
     kw = {k: fuse_comprehensions(v) for k, v in t.kw.items()}
+    # f(*[a, b]) == f(a, b);  [*[a, b], c] == [a, b, c]
+    if any(a.op == "star" and a.args[0].op in ("list", "tuple") for a in args) and t.op in ("call", "mcall", "callv", "list", "tuple"):
+        flat = []
+        for a in args:
+            flat += list(a.args[0].args) if (a.op == "star" and a.args[0].op in ("list", "tuple")) else [a]
+        args = flat
+    # a comprehension over a LITERAL sequence is the literal list of its instances:  [f(x) for x in (a, b)] == [f(a), f(b)]
+    if t.op == "comp" and len(args) == 2 and args[1].op in ("list", "tuple") and \
+            not any(a.op == "star" for a in args[1].args):
+        lit = args[1]
+        ekey = T("elem", None, [lit]).key()
+
+        def inst(x, v):
+            if x.key() == ekey:
+                return v
+            if not x.args and not x.kw:
+                return x
+            return T(x.op, x.name, [inst(a, v) for a in x.args], {k: inst(v_, v) for k, v_ in x.kw.items()}, x.node)
+        return T("list", None, [fuse_comprehensions(inst(args[0], v)) for v in lit.args], node=t.node)
+    # component k of a literal sequence
+    if t.op == "item" and isinstance(t.name, int) and args and args[0].op in ("list", "tuple") and 0 <= t.name < len(args[0].args) and \
+            not any(a.op == "star" for a in args[0].args):
+        return args[0].args[t.name]
     if t.op == "elem" and args and args[0].op == "comp" and len(args[0].args) == 2:
         return args[0].args[0]
     # component k of an element of zip(A0, A1, ...) is an element of Ak
